@@ -79,8 +79,8 @@ ExprReduced == {C0("id"), C0("psid"), C0("expr"), C0("grp"), C0("new0"), C0("com
 LeafCons == {C0("id"), C0("expr"), C0("nt"), C0("im"), C0("yield0"), CN("arr", 0), CO("arr", "h0"), CN("obj", 0), CN("ps", 0), CN("blk", 0),
              CN("cls", 0), CN("clsn", 0), CON("cls", "x", 0), CON("clsn", "", 1), CON("clsn", "x", 1), CN("field", 0), C0("psh"), CN("obj", 1), CN("arr", 2), CON("arr", "h1", 1), CON("arr", "1h", 1),
              CO("arrowb", ""), CO("arrowb", "async"), CO("arrow", ""), C0("spread"), C0("pspread"), C0("pcomp"),
-             CO("bin","+"), CO("bin","/"), CO("bin","**"), CO("bin","in"), CO("asg","="), CO("un","-"), CO("un","typeof"), CO("post","++"),
-             C0("dot"), CN("call", 1), CN("call", 2), CN("newa", 2), CN("tag", 0), C0("new0"), C0("cond"), C0("grp"), CN("tpl", 2), C0("idx")}
+             CO("bin","/"), CO("bin","**"), CO("bin","in"), CO("asg","="), CO("un","typeof"), CO("post","++"),
+             C0("dot"), CN("call", 1), CN("newa", 1), CN("tag", 0), C0("new0"), C0("grp"), CN("tpl", 1), C0("idx")}
             \cup {CO("lit", l) : l \in Lits} \cup {CO("fn", f) : f \in FnKinds} \cup {CO("fnn", f) : f \in FnKinds}
             \cup {CO("pkv", k) : k \in Keys} \cup {CO("pmeth", m) : m \in MethKinds}
 \* negative constructions
@@ -104,12 +104,12 @@ StmtRed == {C0("id"), C0("expr"), C0("empty"), CN("blk", 0), CN("blk", 2), C0("i
             C0("ret"), C0("throw"), C0("bid"), C0("dc"), CN("ps", 0), CO("for", "eee"), CO("for", "v--"), CO("try", "cf"), CON("var", "let", 1), CON("var", "var", 1),
             CO("forin", "var"), CO("forof", "e"), CO("fdecl", ""), CO("fdecl", "async*"), CO("forawait", "const")}
 \* terminator spellings: statements that end in ";" and what may follow them
-AsiCons == {C0("id"), C0("expr"), CN("blk", 1), CN("blk", 2), C0("if"), C0("ife"), C0("dow"), C0("while"),
+AsiCons == {C0("id"), C0("expr"), CN("blk", 1), CN("blk", 2), C0("if"), C0("ife"), C0("dow"),
             CN("sw", 1), CN("case", 2), CO("label", "L"), CO("brk", ""), CO("brk", "L"), CO("cont", ""),
             C0("ret0"), C0("ret"), C0("throw"), C0("dbg"), C0("bid"), C0("dc"), C0("dci"), CN("ps", 0), CO("for", "---"),
-            CON("var", "var", 1), CON("var", "let", 1), CO("fdecl", ""), CO("fdecl", "*"),
+            CON("var", "let", 1), CO("fdecl", ""),
             CO("pre", "++"), CO("post", "--"), CN("call", 0), C0("grp"), C0("yield0"), CO("un", "!"), CO("un", "-"), CO("lit", "'s'"), CO("lit", "/r/"), CO("lit", "`t`"),
-            CN("arr", 0), CO("bin", "+"), CO("fn", ""), CN("obj", 0), CO("arrow", ""), C0("psid")}
+            CN("arr", 0), CO("arrow", ""), C0("psid")}
 \* bindings and parameter lists
 BindCons == {C0("id"), C0("expr"), C0("bid"), C0("bdef"), CN("barr", 0), CN("barr", 1), CN("barr", 2), CON("barr", "h1", 1), CON("barr", "r", 1),
              CON("barr", "r", 2), CN("bobj", 0), CN("bobj", 1), CN("bobj", 2), CON("bobj", "r", 0), CON("bobj", "r", 1),
@@ -117,7 +117,7 @@ BindCons == {C0("id"), C0("expr"), C0("bid"), C0("bdef"), CN("barr", 0), CN("bar
              CON("var", "let", 1), CON("var", "const", 1), CON("var", "var", 2),
              CN("ps", 0), CN("ps", 1), CN("ps", 2), CON("ps", "r", 1), CON("ps", "r", 2), C0("psid"), CN("blk", 0),
              CO("fdecl", ""), CO("arrow", ""), CO("arrow", "async"), CO("try", "cp"),
-             CO("forof", "let"), CO("forin", "var"), CO("bin", "+"), C0("empty")}
+             CO("forof", "let"), CO("forin", "var"), CO("bin", "+"), CO("bin", "in"), C0("empty")}
 \* destructuring assignment (the cover grammar: array / object literals re-read as patterns)
 AsgPat == {C0("id"), C0("expr"), CO("asg", "="), CO("asg", "+="), CN("arr", 1), CN("arr", 2), CON("arr", "h1", 1), CN("obj", 1), CN("obj", 2), C0("psh"), CO("pkv", "pr"), C0("pcomp"),
            C0("spread"), C0("pspread"), C0("grp"), C0("dot"), C0("idx"), CO("forof", "e"), CO("forin", "e"), C0("empty")}
@@ -127,6 +127,12 @@ ClassBody == {C0("id"), C0("expr"), CN("ps", 0), CN("blk", 0), CN("blk", 1), C0(
 \* arrow parameters: the cover grammar (parenthesised expression re-read as parameters), computed keys and defaults inside
 ArrowPat == {C0("id"), C0("expr"), CO("arrow", ""), CO("arrow", "async"), CN("ps", 1), C0("bid"), C0("bdef"), CN("barr", 1), CN("bobj", 1), C0("bpcomp"), CO("bpkv", "pr"), C0("bpshd"),
              CN("arr", 1), CN("obj", 1), CO("pkv", "pr"), C0("psh"), CO("bin", "+"), CO("lit", "0"), C0("grp"), CN("call", 1), C0("idx"), C0("dot"), CO("un", "-"), CO("asg", "=")}
+\* the [In] parameter: `in` inside the head of a for statement, bare (needs parentheses) and inside every kind of bracket (does not)
+ForIn == {C0("id"), C0("empty"), CO("for", "e--"), CO("for", "v--"), CON("var", "var", 1), C0("dci"), C0("bid"),
+          CO("bin", "in"), CO("bin", "||"), C0("idx"), C0("oidx"),
+          CN("call", 1), CN("ocall", 1), CN("newa", 1), CN("arr", 1), CN("obj", 1), CO("pkv", "pr"), CN("tpl", 1), C0("cond"), C0("grp"), CO("arrow", ""), C0("psid")}
+ForInPat == {C0("id"), C0("empty"), CO("for", "v--"), CO("forof", "var"), CO("forin", "let"), CO("forawait", "const"), CON("var", "let", 1), C0("dci"), C0("bid"),
+             C0("bdef"), CN("barr", 1), CN("bobj", 1), C0("bpshd"), C0("bpcomp"), CO("bpkv", "pr"), CO("bin", "in")}
 \* deeper patterns in one context
 BindDeep == {C0("id"), C0("bid"), C0("bdef"), CN("barr", 0), CN("barr", 1), CN("barr", 2), CON("barr", "h1", 1), CON("barr", "r", 1), CON("barr", "r", 2),
              CN("bobj", 0), CN("bobj", 1), CN("bobj", 2), CON("bobj", "r", 0), CON("bobj", "r", 1),
@@ -143,7 +149,7 @@ ClassCons == {C0("id"), C0("expr"), CN("ps", 0), CN("ps", 1), C0("bid"), CN("blk
              \cup {CO("meth", k) : k \in MethKinds} \cup {CO("smeth", k) : k \in {"", "set"}} \cup {CO("pmeth2", k) : k \in {"", "get"}}
              \cup {CO("cmeth", k) : k \in {"", "async*"}}
 
-AllCons == ExprFull \cup ExprReduced \cup LeafCons \cup NegCons \cup StmtCons \cup StmtRed \cup AsiCons \cup BindCons \cup BindDeep \cup ArrowPat \cup AsgPat \cup ClassBody \cup ClassAsi \cup ClassCons
+AllCons == ExprFull \cup ExprReduced \cup LeafCons \cup NegCons \cup StmtCons \cup StmtRed \cup AsiCons \cup BindCons \cup BindDeep \cup ForIn \cup ForInPat \cup ArrowPat \cup AsgPat \cup ClassBody \cup ClassAsi \cup ClassCons
 \* configurations for -simulate: everything at once
 SimCons == AllCons \ {c \in AllCons : c.k \in {"badasg", "dup"}}
 
@@ -628,11 +634,11 @@ Ok(t) ==
     CASE k \in {"pre","post"} -> IsSimpleTarget(t.c[1])
       [] k = "asg" -> IsSimpleTarget(t.c[1]) \/ (t.op = "=" /\ IsAsgPattern(t.c[1]))
       [] k = "badasg" -> t.c[1].k = "bin"
-      [] k \in {"pcomp","bpcomp","cmeth","cfield"} -> t.c[1].k # "tag"
+      [] k \in {"pcomp","bpcomp"} -> t.c[1].k # "tag"
       [] k = "bdef" -> t.c[1].k # "bdef"
       [] k \in {"ps","barr"} -> (t.op = "r" => t.c[Len(t.c)].k # "bdef") /\ ParamNeedsOK(t)
       [] k \in {"fn","fnn","fdecl","pmeth","meth","smeth","pmeth2","cmeth"} ->
-             /\ BodyOK(t, t.op) /\ t.c[Len(t.c) - 1].k = "ps"
+             /\ BodyOK(t, t.op) /\ t.c[Len(t.c) - 1].k = "ps" /\ (k = "cmeth" => t.c[1].k # "tag")
              /\ (t.op = "get" => Len(t.c[Len(t.c) - 1].c) = 0)
              /\ (t.op = "set" => Len(t.c[Len(t.c) - 1].c) = 1 /\ t.c[Len(t.c) - 1].op = "")
       [] k = "ctor" -> BodyOK(t, "") /\ t.c[1].k = "ps"
@@ -784,6 +790,8 @@ RECURSIVE OpsOf(_)
 OpsOf(t) == <<t.k \o ":" \o t.op>> \o Flat([i \in DOMAIN t.c |-> OpsOf(t.c[i])])
 
 \* parent>child adjacencies in prefix order (only used to name a disagreement precisely)
+RECURSIVE ArOf(_)
+ArOf(t) == <<Len(t.c)>> \o Flat([i \in DOMAIN t.c |-> ArOf(t.c[i])])
 RECURSIVE PairsOf(_)
 PairsOf(t) == Flat([i \in DOMAIN t.c |-> <<t.k \o ":" \o t.op \o ">" \o t.c[i].k \o ":" \o t.c[i].op>> \o PairsOf(t.c[i])])
 CaseFile == IOEnv.VERIF_CASES
@@ -813,6 +821,7 @@ Emit(st, nn) ==
                                         ins |-> (IF bad THEN {} ELSE Ins(lens, off)),
                                         ops |-> Flat([i \in DOMAIN st |-> OpsOf(st[i])]),
                                         pairs |-> Flat([i \in DOMAIN st |-> PairsOf(st[i])]),
+                                        ar |-> Flat([i \in DOMAIN st |-> ArOf(st[i])]),
                                         nodes |-> nn])>>, CaseFile)
 
 Next == \E con \in Cons : Expand(con) /\ (holes' = <<>> => Emit(BuildTop(word', 1, 0), ne' + ns' + np'))
